@@ -527,4 +527,57 @@ theorem matmul2d_FT_adjoint_right (a b x : Tensor S) (m k n : Nat) (ha : a.dims 
   · rw [← hwb.2, hb]; simp [prod]
   · rw [← hwx.2, hx]; simp [prod]
 
+/-! ### first operand transposed: `aᵀ · b` -/
+
+/-- the product buffer with both operands given entry-wise (any layouts / flags) -/
+def mmBufGG (m k n : Nat) (Af Bf : Nat → Nat → S) : List S :=
+  (List.range (m * n)).map (fun i => sumRange k (fun t => Af (i / n) t * Bf t (i % n)))
+
+theorem mmBufGG_dot (m k n : Nat) (Af Bf : Nat → Nat → S) (xv : List S) (hx : xv.length = m * n) :
+    dot (mmBufGG m k n Af Bf) xv
+      = sumRange m (fun r => sumRange n (fun j => sumRange k (fun t => Af r t * Bf t j) * xv.getD (r * n + j) zero)) := by
+  rw [dot_eq_sumRange _ _ (by simp [mmBufGG, hx])]
+  have l1 : (mmBufGG m k n Af Bf).length = m * n := by simp [mmBufGG]
+  rw [l1, sumRange_mul_split]
+  exact sumRange_congr_lt m (fun r hr => sumRange_congr_lt n (fun j hj => by
+    show (mmBufGG m k n Af Bf).getD (r * n + j) zero * _ = _
+    rw [mmBufGG, getD_map_range_adj _ _ _ (mul_add_lt r j n m hr hj), (divmod_mul_add r n j hj).1, (divmod_mul_add r n j hj).2]))
+
+/-- the buffer of `b · xᵀ` (`b : k×n`, `x : m×n`) in `[k,m]` layout: the left closure's product for `aᵀ · b` -/
+def mmBufBXt (k n m : Nat) (bv xv : List S) : List S :=
+  (List.range (k * m)).map (fun i => sumRange n (fun j => bv.getD (i / m * n + j) zero * xv.getD (i % m * n + j) zero))
+
+/-- **buffer level, left operand of `aᵀ · b`** (`a : k×m` row-major): `⟨aᵀ·b, x⟩ = ⟨a, b·xᵀ⟩` -/
+theorem mmBufGG_adjoint_left_T (m k n : Nat) (av bv xv : List S) (ha : av.length = k * m) (hx : xv.length = m * n) :
+    dot (mmBufGG m k n (fun r t => av.getD (t * m + r) zero) (fun t j => bv.getD (t * n + j) zero)) xv
+      = dot av (mmBufBXt k n m bv xv) := by
+  rw [mmBufGG_dot _ _ _ _ _ _ hx,
+    matmul_kernel_adjoint_left m k n (fun r t => av.getD (t * m + r) zero) (fun t j => bv.getD (t * n + j) zero)
+      (fun r j => xv.getD (r * n + j) zero),
+    sumRange_comm (fun r t => av.getD (t * m + r) zero * sumRange n (fun j => bv.getD (t * n + j) zero * xv.getD (r * n + j) zero)) k m,
+    dot_eq_sumRange _ _ (by simp [mmBufBXt, ha]), ha, sumRange_mul_split]
+  refine sumRange_congr_lt k (fun t ht => sumRange_congr_lt m (fun r hr => ?_))
+  show _ = av.getD (t * m + r) zero * (mmBufBXt k n m bv xv).getD (t * m + r) zero
+  rw [mmBufBXt, getD_map_range_adj _ _ _ (mul_add_lt t r m k ht hr), (divmod_mul_add t m r hr).1, (divmod_mul_add t m r hr).2]
+
+theorem specMatmul_2d_vals_TF (a b : Tensor S) (m k n : Nat) (ha : a.dims = [k, m]) (hb : b.dims = [k, n]) :
+    (specMatmul a true b false none).vals
+      = mmBufGG m k n (fun r t => a.vals.getD (t * m + r) zero) (fun t j => b.vals.getD (t * n + j) zero) := by
+  simp only [specMatmul, Tensor.ofFn, ha, hb, mmBufGG]
+  simp [bdims, bdimsRev, prod, unflatten, proj, Tensor.get, rowMajor, ha, hb, AddLaws.zero_add]
+
+theorem specMatmul_2d_vals_BXt (b x : Tensor S) (m k n : Nat) (hb : b.dims = [k, n]) (hx : x.dims = [m, n]) :
+    (specMatmul b false x true none).vals = mmBufBXt k n m b.vals x.vals := by
+  simp only [specMatmul, Tensor.ofFn, hx, hb, mmBufBXt]
+  simp [bdims, bdimsRev, prod, unflatten, proj, Tensor.get, rowMajor, hx, hb, AddLaws.zero_add]
+
+/-- **`aᵀ · b`, left operand**: `⟨aᵀ·b, x⟩ = ⟨a, b·xᵀ⟩` -/
+theorem matmul2d_TF_adjoint_left (a b x : Tensor S) (m k n : Nat) (ha : a.dims = [k, m]) (hb : b.dims = [k, n])
+    (hx : x.dims = [m, n]) (hwa : a.WF) (hwx : x.WF) :
+    dot (specMatmul a true b false none).vals x.vals = dot a.vals (specMatmul b false x true none).vals := by
+  rw [specMatmul_2d_vals_TF a b m k n ha hb, specMatmul_2d_vals_BXt b x m k n hb hx]
+  apply mmBufGG_adjoint_left_T
+  · rw [← hwa.2, ha]; simp [prod]
+  · rw [← hwx.2, hx]; simp [prod]
+
 end Corgi
